@@ -5,7 +5,7 @@
 From Coq Require Import List NArith Bool String.
 From TG.Gen Require Import GenTokens GenCompletion.
 From TG.Model Require Import Chars Tree ParserPrims CoreAst AstToCore Scope Indexer Pipeline PipelineAll.
-From TG.Model Require SymbolMap Outline DocComments.
+From TG.Model Require SymbolMap Outline DocComments SymbolClosed.
 Import ListNotations.
 Open Scope string_scope.
 Open Scope N_scope.
@@ -109,6 +109,7 @@ Definition j_whole (A : all_answers) : jv :=
   JObj [("files", JArr (map (fun fp : N * pfile => JStr (path_text (pf_path (snd fp)))) (an_files (aa_an A))));
         ("lens", JArr (map (fun fp : N * pfile => JNum (pf_len (snd fp))) (an_files (aa_an A))));
         ("sm_ok", JBool (aa_sm_ok A));
+        ("closed", JBool (SymbolClosed.sm_closedb (aa_sm A)));
         ("bad", JBool (s_bad (aa_st A)));
         ("diagnostics", JArr (map (fun f => j_opt (j_list j_diag) (q_diagnostics A f)) fs));
         ("symbols", JArr (map (fun f => j_sres (j_opt (j_list j_docsym)) (q_outline A f)) fs));
